@@ -222,7 +222,12 @@ def project(case, res):
             io_half[o["si"]] = (o["si"], o["so"])
     attached = set()
     terms = []
-    steps = [s for s in (res.get("steps") or []) if not s.get("final")]
+    steps = [dict(s) for s in (res.get("steps") or []) if not s.get("final")]
+    fin0 = [s for s in (res.get("steps") or []) if s.get("final")]
+    if case.get("ochcap") and fin0 and steps:
+        # stalled terminal: what it receives once everything is wound down counts as seen at the end of the last operation
+        steps[-1]["och"] = (steps[-1].get("och") or []) + (fin0[0].get("och") or [])
+        steps[-1]["ret"] = (steps[-1].get("ret") or []) + (fin0[0].get("ret") or [])
     for s in steps:
         att = s.get("att") or []
         now = attached | set(att)
